@@ -375,13 +375,18 @@ def strictlySorted : List Nat → Bool
   | [_] => true
   | a :: b :: rest => decide (a < b) && strictlySorted (b :: rest)
 
+/-- Script's output closure -/
+def checkScriptOutput (_index : Nat) : Output → Option VErr
+  | .contractCreated _ => some .TransactionOutputContainsContractCreated
+  | _ => none
+
 /-- `UniqueFormatValidityChecks::check_unique_rules` of the five kinds -/
 def checkUniqueRules (p : Params) (tx : Tx) : R Unit :=
   match tx.body with
   | .script _ sl sdl => do
     rejectIf (sl > p.maxScriptLength) .TransactionScriptLength
     rejectIf (sdl > p.maxScriptDataLength) .TransactionScriptDataLength
-    liftFirst (firstErr (fun _ o => match o with | Output.contractCreated _ => some VErr.TransactionOutputContainsContractCreated | _ => none) 0 tx.outputs)
+    liftFirst (firstErr checkScriptOutput 0 tx.outputs)
   | .create bwi slots => do
     match tx.witnesses[bwi]? with
     | none => throw (.validity .TransactionCreateBytecodeWitnessIndex)
